@@ -65,6 +65,9 @@ func c15new(p c15pol, export bool) *c15world {
 		panic(err)
 	}
 	w.a = vEstablished(w.s, vNeighbor(2, 65001, 65000, fams), fams)
+	if vParam("addpath") == 1 {
+		w.a.fsm.familyMap.Store(map[bgp.Family]bgp.BGPAddPathMode{bgp.RF_IPv4_UC: bgp.BGP_ADD_PATH_RECEIVE})
+	}
 	w.t = vEstablished(w.s, vNeighbor(4, 65003, 65000, fams), fams)
 	return w
 }
@@ -91,7 +94,17 @@ func (w *c15world) drain() int {
 func (w *c15world) feed(lens [2]int) {
 	for i, l := range lens[:vParam("routes")] {
 		aspath := []uint32{65001, 65010, 65011}[:l]
-		vRecv(w.s, w.a, vUpdate4(vPrefix4(10, byte(1+i), 0, 0, 16), false, aspath, vAddr4(10, 0, 0, 2)), int64(10+i))
+		m := vUpdate4(vPrefix4(10, byte(1+i), 0, 0, 16), false, aspath, vAddr4(10, 0, 0, 2))
+		if vParam("addpath") == 1 {
+			// an earlier path of the same prefix (another path identifier) carries the local AS: it
+			// is stored in the Adj-RIB-In as rejected, in front of the usable one
+			bad := vUpdate4(vPrefix4(10, byte(1+i), 0, 0, 16), false, []uint32{65001, 65000}, vAddr4(10, 0, 0, 2))
+			bad.Body.(*bgp.BGPUpdate).NLRI[0].ID = 1
+			vRecv(w.s, w.a, bad, int64(5+i))
+			w.drain()
+			m.Body.(*bgp.BGPUpdate).NLRI[0].ID = 2
+		}
+		vRecv(w.s, w.a, m, int64(10+i))
 		w.drain()
 	}
 }
@@ -130,7 +143,8 @@ func c15same(x, y *c15world, export bool) {
 }
 
 func VH_c15_soft_reset() {
-	export := vParam("export") == 1
+	export := vParam("export") >= 1
+	refresh := vParam("export") == 2 // the peer asks with a ROUTE-REFRESH instead of the operator resetting
 	old, cur := c15symPolicy("old"), c15symPolicy("new")
 	lens := [2]int{1 + vChoice("aspath_len", 3), 1}
 	if vParam("routes") > 1 {
@@ -143,7 +157,10 @@ func VH_c15_soft_reset() {
 		panic(err)
 	}
 	var err error
-	if export {
+	if refresh {
+		w1.t.fsm.capMap[bgp.BGP_CAP_ROUTE_REFRESH] = []bgp.ParameterCapabilityInterface{bgp.NewCapRouteRefresh()}
+		vRecv(w1.s, w1.t, bgp.NewBGPRouteRefreshMessage(bgp.AFI_IP, 0, bgp.SAFI_UNICAST), 100)
+	} else if export {
 		err = w1.s.softResetOut("", bgp.RF_IPv4_UC, false)
 	} else {
 		err = w1.s.softResetIn("", bgp.RF_IPv4_UC)
@@ -154,12 +171,50 @@ func VH_c15_soft_reset() {
 	w2.feed(lens)
 	c15same(w1, w2, export)
 	// repeating the reset changes nothing
-	if export {
+	if refresh {
+		vRecv(w1.s, w1.t, bgp.NewBGPRouteRefreshMessage(bgp.AFI_IP, 0, bgp.SAFI_UNICAST), 101)
+	} else if export {
 		_ = w1.s.softResetOut("", bgp.RF_IPv4_UC, false)
 	} else {
 		_ = w1.s.softResetIn("", bgp.RF_IPv4_UC)
 	}
 	w1.drain()
 	c15same(w1, w2, export)
+	vReach("end")
+}
+
+// C15 (sequences): export policy switched twice between "accept everything" and "reject
+// everything", each switch followed by either a soft reset out or a ROUTE-REFRESH from the peer;
+// the peer's final view must be what a fresh evaluation under the final policy gives.
+func VH_c15_sequence() {
+	all := func(reject bool) c15pol {
+		if reject {
+			return c15pol{op: 2, value: 0, reject: true}
+		}
+		return c15pol{}
+	}
+	start := all(vBool("policy_rejects"))
+	w1 := c15new(start, true)
+	w1.t.fsm.capMap[bgp.BGP_CAP_ROUTE_REFRESH] = []bgp.ParameterCapabilityInterface{bgp.NewCapRouteRefresh()}
+	lens := [2]int{1, 1}
+	w1.feed(lens)
+	last := start
+	steps := vParam("steps")
+	for i := 0; i < steps; i++ {
+		last = all(vBool("policy_rejects"))
+		rp, ap := last.config(true)
+		if err := w1.s.policy.Reset(rp, ap); err != nil {
+			panic(err)
+		}
+		if vBool("route_refresh") {
+			vRecv(w1.s, w1.t, bgp.NewBGPRouteRefreshMessage(bgp.AFI_IP, 0, bgp.SAFI_UNICAST), int64(100+i))
+		} else {
+			_ = w1.s.softResetOut("", bgp.RF_IPv4_UC, false)
+		}
+		w1.drain()
+	}
+	w2 := c15new(last, true)
+	w2.feed(lens)
+	c15same(w1, w2, true)
 	vReach("end")
 }
